@@ -194,9 +194,12 @@ def m_fold(it, args, callee, depth):
 
 def m_sum(it, args, callee, depth):
     items = _drain(as_iter(it, args[0]), it, depth)
+    items = [A.deref_all(it, x) for x in items]
+    if items and all(isinstance(x, int) for x in items):
+        return sum(items)                  # integer sum of concrete values (width checks are the panic inventory's business)
     acc = ("f", 0.0)
     for x in items:
-        acc = it.binop("Add", acc, A.deref_all(it, x), "f32")
+        acc = it.binop("Add", acc, x, "f32")
     return acc
 
 
@@ -241,6 +244,8 @@ def m_arith(op):
             return NotImplemented
         a = A.deref_all(it, args[0])
         if op == "Neg":
+            if isinstance(a, tuple) and a[0] == "f":
+                return ("f", -a[1])
             if isinstance(a, tuple) and a[0] in ("sym", "symop", "f"):
                 return ("symop", "Neg", a, None)
             return NotImplemented
@@ -513,6 +518,27 @@ def _opaque(name):
     return f
 
 
+def m_slice_swap(it, args, callee, depth):
+    """<[T]>::swap(a, b) through a mutable reference to an array"""
+    r = args[0]
+    while isinstance(r, tuple) and r[0] == "ref" and isinstance(it.load_ref(r), tuple) and it.load_ref(r)[0] == "ref":
+        r = it.load_ref(r)
+    arr = it.load_ref(r) if isinstance(r, tuple) and r[0] == "ref" else None
+    i, j = A.deref_all(it, args[1]), A.deref_all(it, args[2])
+    if not (isinstance(arr, tuple) and arr[0] == "array" and isinstance(i, int) and isinstance(j, int)):
+        raise A.Undecided("slice::swap on %r" % (arr,))
+    if i >= len(arr[1]) or j >= len(arr[1]):
+        raise A.Panic("swap index out of bounds")
+    new = list(arr[1])
+    new[i], new[j] = new[j], new[i]
+    _tag, fr, local, projs = r
+    it._store(fr, local, projs, ("array", new))
+    return ("tuple", [])
+
+
+ALG_MODELS["slice::<impl [T]>::swap"] = m_slice_swap
+
+
 def m_mul_add(it, args, callee, depth):
     a, b, c = [A.deref_all(it, x) for x in args[:3]]
     return it.binop("Add", it.binop("Mul", a, b, "f32"), c, "f32")
@@ -522,3 +548,174 @@ ALG_MODELS.setdefault("$f32>::clamp", _opaque("fclamp"))
 ALG_MODELS.setdefault("$f32>::min", _opaque("fmin"))
 ALG_MODELS.setdefault("$f32>::max", _opaque("fmax"))
 ALG_MODELS.setdefault("$f32>::mul_add", m_mul_add)
+
+
+# ---------------------------------------------------------------- path exploration
+
+def explore(run, max_paths=32, base_oracle=None):
+    """Enumerate the outcomes of a symbolic run whose control flow depends on comparisons
+    the domain cannot decide. `run(oracle)` performs one run; each undecided comparison is
+    answered from a decision prefix and the alternative answer is queued (replay forking).
+    Returns [(trace, result)] with trace = [(op, a, b, answer)]; operands that are UNKNOWN
+    stay undecided (the run raises Undecided as before)."""
+    pending = [()]
+    outs = []
+    while pending:
+        if len(outs) >= max_paths:
+            raise A.Undecided("more than %d paths through undecided comparisons" % max_paths)
+        prefix = pending.pop()
+        trace = []
+
+        def orc(op, a, b, prefix=prefix, trace=trace):
+            if base_oracle is not None:
+                r = base_oracle(op, a, b)
+                if r is not None:
+                    return r
+            if a is A.UNKNOWN or b is A.UNKNOWN or a == A.UNKNOWN or b == A.UNKNOWN:
+                return None
+            i = len(trace)
+            if i < len(prefix):
+                ans = prefix[i]
+            else:
+                ans = True
+                pending.append(tuple(t[3] for t in trace) + (False,))
+            trace.append((op, a, b, ans))
+            return ans
+        outs.append((trace, run(orc)))
+    return outs
+
+
+class NotNumeric(Exception):
+    pass
+
+
+def num_eval(v, point):
+    """Evaluate a symbolic value of the ring domain (with the opaque real functions) at a
+    concrete point {symbol: float}: used only to exhibit a witness input against a summary
+    that has already been extracted from the code, never to decide that a property holds."""
+    import math
+    if isinstance(v, bool):
+        return float(v)
+    if isinstance(v, (int, float)):
+        return float(v)
+    if not isinstance(v, tuple):
+        raise NotNumeric(repr(v))
+    if v[0] == "f":
+        return float(v[1])
+    if v[0] == "sym":
+        if v[1] in point:
+            return point[v[1]]
+        raise NotNumeric("free symbol %s" % v[1])
+    if v[0] == "adt" and len(v[3]) == 1:
+        return num_eval(v[3][0], point)        # newtype wrappers (Angle)
+    if v[0] != "symop":
+        raise NotNumeric(repr(v)[:80])
+    op = v[1]
+    a = num_eval(v[2], point)
+    b = num_eval(v[3], point) if len(v) > 3 and v[3] is not None else None
+    try:
+        if op == "Add": return a + b
+        if op == "Sub": return a - b
+        if op == "Mul": return a * b
+        if op == "Div": return a / b if b != 0 else math.copysign(math.inf, a) if a else math.nan
+        if op == "Rem": return math.fmod(a, b) if b else math.nan
+        if op == "Neg": return -a
+        if op == "abs": return abs(a)
+        if op == "fmin": return min(a, b)
+        if op == "fmax": return max(a, b)
+        if op == "sqrt": return math.sqrt(a) if a >= 0 else math.nan
+        if op == "sin": return math.sin(a)
+        if op == "cos": return math.cos(a)
+        if op == "tan": return math.tan(a)
+        if op == "atan2": return math.atan2(a, b)
+        if op == "rem_euclid":
+            r = math.fmod(a, b)
+            return r + abs(b) if r < 0 else r
+        if op.startswith("cast:f"): return a
+    except (ValueError, OverflowError):
+        return math.nan
+    raise NotNumeric("operator %s" % op)
+
+
+def trace_holds(trace, point):
+    """Does the concrete point follow the decisions of this trace?"""
+    for op, a, b, ans in trace:
+        x, y = num_eval(a, point), num_eval(b, point)
+        got = {"Lt": x < y, "Le": x <= y, "Gt": x > y, "Ge": x >= y, "Eq": x == y, "Ne": x != y}[op]
+        if got != ans:
+            return False
+    return True
+
+
+def fmt_trace(trace):
+    def f(v):
+        if isinstance(v, tuple) and v[0] == "sym":
+            return v[1]
+        if isinstance(v, tuple) and v[0] == "f":
+            return repr(v[1])
+        if isinstance(v, tuple) and v[0] == "symop":
+            args = [f(x) for x in v[2:] if x is not None]
+            return "%s(%s)" % (v[1], ", ".join(args))
+        return repr(v)[:40]
+    return " and ".join("%s%s(%s, %s)" % ("" if ans else "not ", op, f(a), f(b)) for op, a, b, ans in trace) or "always"
+
+
+# ---------------------------------------------------------------- exact rational-function identities
+
+def field_identities(pairs, timeout=600):
+    """pairs: [(value_a, value_b)] of ring-domain values. Decides each a == b in the field of
+    rational functions over Q in the symbols (opaque sub-terms become further indeterminates),
+    with exact gcd cancellation (sympy's fraction field, run under python3-vt)."""
+    import json
+    import os
+    import shutil
+    import subprocess
+    nodes, memo, gens = [], {}, []
+
+    def gen(name):
+        if name not in gens:
+            gens.append(name)
+        return name
+
+    def ser(v):
+        key = id(v)
+        if key in memo:
+            return memo[key]
+        if isinstance(v, (int, float)) and not isinstance(v, bool):
+            n = ["const", repr(float(v)) if isinstance(v, float) else str(v)]
+        elif isinstance(v, tuple) and v[0] == "f":
+            n = ["const", str(Fraction(v[1]))]
+        elif isinstance(v, tuple) and v[0] == "sym":
+            n = ["sym", gen(v[1])]
+        elif isinstance(v, tuple) and v[0] == "symop" and v[1] in ("Add", "Sub", "Mul", "Div"):
+            n = [v[1], ser(v[2]), ser(v[3])]
+        elif isinstance(v, tuple) and v[0] == "symop" and v[1] == "Neg":
+            n = ["Neg", ser(v[2])]
+        elif isinstance(v, tuple) and v[0] == "symop" and v[1].startswith("cast:f"):
+            return ser(v[2])
+        elif isinstance(v, tuple) and v[0] in ("symop",):
+            import hashlib
+            n = ["sym", gen("op_" + hashlib.sha1(repr(v).encode()).hexdigest()[:12])]
+        else:
+            raise NotPolynomial("value %r is outside the ring domain" % (v,))
+        nodes.append(n)
+        memo[key] = len(nodes) - 1
+        return memo[key]
+    checks = [[ser(a), ser(b)] for a, b in pairs]
+    for n in nodes:
+        if n[0] == "const":
+            n[1] = str(Fraction(n[1])) if "/" not in n[1] else n[1]
+    if globals().get("_DEBUG"):
+        open("/tmp/fe_job.json", "w").write(json.dumps({"gens": gens, "nodes": nodes, "checks": checks}))
+    exe = shutil.which("python3-vt")
+    if not exe:
+        raise A.Undecided("python3-vt (sympy) not available for exact rational-function arithmetic")
+    here = os.path.dirname(os.path.abspath(__file__))
+    r = subprocess.run([exe, os.path.join(here, "fieldeval.py")], input=json.dumps({"gens": gens, "nodes": nodes, "checks": checks}),
+                       stdout=subprocess.PIPE, stderr=subprocess.PIPE, text=True, timeout=timeout)
+    if r.returncode != 0:
+        raise A.Undecided("field evaluation failed: %s" % r.stderr[-400:])
+    out = json.loads(r.stdout)
+    if "error" in out:
+        raise A.Undecided("field evaluation: %s" % out["error"])
+    return out["results"]
